@@ -1,4 +1,4 @@
-//@unit c03_prodprec props=C03 widths=u32
+//@unit c03_prodprec props=C03,C10 widths=u32
 //@use prelude/head.rs
 //@use prelude/grammar.rs
 
@@ -43,7 +43,7 @@ pub open spec fn prod_prec(p: &AstProduction, m: Map<int, (Precedence, Span)>) -
 //@ctx prodprec: every %prec name of a validated AST is a declared precedence token (ast.rs complete_and_validate)
 fn prodprec(ast: &Ast, astprod: &AstProduction) -> (r: Option<(Precedence, Span)>)
     requires astprod.precedence is Some ==> ast.precs.m().contains_key(astprod.precedence.unwrap().id()),
-    ensures r == prod_prec(astprod, ast.precs.m()), // OBL: C03.production_precedence_is_prec_token_else_last_token
+    ensures r == prod_prec(astprod, ast.precs.m()), // OBL: C03.production_precedence_is_prec_token_else_last_token C10.production_precedence_is_prec_token_else_last_token
 {
     //@probe
     //@body file=cfgrammar/src/lib/yacc/grammar.rs fn=new_from_ast_with_validity_info block=`let mut prec = None;` endx=`\(\*rule\)\.push\(PIdx\(`
